@@ -180,6 +180,7 @@ fn trace_dec<T: Message>(input: &[u8], proto: &str) -> Value {
     match proto {
         "bin" => go!(binary::TBinaryProtocol::new(&mut b, false)),
         "binle" => go!(binary_le::TBinaryProtocol::new(&mut b, false)),
+        "unsafe" => go!(unsafe { binary_unsafe::TBinaryUnsafeInputProtocol::new(&mut b) }),
         _ => go!(compact::TCompactInputProtocol::new(&mut b)),
     }
 }
@@ -204,6 +205,18 @@ fn trace_enc<T: Message>(x: &T, proto: &str) -> Value {
             let mut b = BytesMut::new();
             go!(binary_le::TBinaryProtocol::new(&mut b, false))
         }
+        "unsafe" => {
+            // the documented idiom: exact size from TBinaryProtocol<()>, then the unchecked writer over that buffer
+            let size = x.size(&mut binary::TBinaryProtocol::new((), false));
+            let mut b = BytesMut::with_capacity(size + 16);
+            b.resize(size + 16, 0xA5);
+            let sl = unsafe { std::slice::from_raw_parts_mut(b.as_mut_ptr(), size) };
+            let v = go!(unsafe { binary_unsafe::TBinaryUnsafeOutputProtocol::new(&mut b, sl, false) });
+            let guard = b[size..].iter().all(|x| *x == 0xA5);
+            let mut v = v;
+            v["guard_ok"] = json!(guard);
+            v
+        }
         _ => {
             let mut b = BytesMut::new();
             go!(compact::TCompactOutputProtocol::new(&mut b, false))
@@ -222,7 +235,7 @@ pub fn exec<T: Message + PartialEq + std::fmt::Debug>(req: &Value) -> Value {
         if op == "trace_decode" {
             // the call sequence of the EMITTED decode() on a real reader, one event per call, for each protocol's input
             let mut traces = serde_json::Map::new();
-            for tp in ["bin", "binle", "compact"] {
+            for tp in ["bin", "binle", "compact", "unsafe"] {
                 if req["inputs"][tp].is_array() {
                     traces.insert(tp.to_string(), trace_dec::<T>(&bytes_of(&req["inputs"][tp]), tp));
                 }
@@ -249,7 +262,7 @@ pub fn exec<T: Message + PartialEq + std::fmt::Debug>(req: &Value) -> Value {
         if op == "trace_encode" {
             // the call sequence of the EMITTED size() and encode() on a real protocol object, one event per call
             let mut traces = serde_json::Map::new();
-            for tp in ["bin", "binle", "compact"] {
+            for tp in ["bin", "binle", "compact", "unsafe"] {
                 traces.insert(tp.to_string(), json!(trace_enc(&x, tp)));
             }
             return json!({"ok": true, "used": used, "traces": traces});
